@@ -189,6 +189,9 @@ func checkC20(p *Prog, r *Report) {
 		lockOrderControl(p, r, kp("LOCK", "order-cycle#control"))
 	}
 
+	// ---------------- D1d: locks are not copied ----------------
+	checkCopyLocks(p, r, "C20")
+
 	// ---------------- D1c: pooled memory does not escape ----------------
 	checkPooledMemory(p, r, "C20")
 
